@@ -3,6 +3,7 @@ compared with the input by complete truth tables (Boolean leaves, bound Boolean 
 the advertised shape."""
 from ..common import get_repo, parallel_map, method_loc
 from .. import proc
+from ..absint import AbsRaise
 from ..proc import Shape, S, BOOL, INT
 
 PROCS = {
@@ -15,14 +16,25 @@ PROCS = {
 
 
 def _job(job):
-    name, shape = job
+    name, shape = job[:2]
+    history = len(job) > 2
     cls, meth, pred = PROCS[name]
 
     def call(w, it, f):
+        if history:
+            # earlier in the same environment: a substitution that fails half-way (the rebuilt term is ill-typed) on a
+            # formula that shares sub-terms with this one, handled by the caller
+            y_, z_, n_ = w.symbol("y", BOOL), w.symbol("z", BOOL), w.symbol("n", INT)
+            for hf in (w.app("And", w.app("Or", y_, z_), w.symbol("w", BOOL)), w.app("And", w.symbol("w", BOOL), w.app("Or", y_, z_))):
+                for val in (True, False):
+                    try:
+                        it.call(it.getattr(hf, "substitute"), [{y_: w.bool_const(val), w.symbol("w", BOOL): n_}])
+                    except AbsRaise:
+                        pass
         wk = w.new_walker(cls, w.env)
         return it.call(it.getattr(wk, meth), [f])
     res = proc.run_proc(shape, call, shape_pred=pred, world_cls=proc.TypedWorld)
-    return [(name, repr(shape), r.kind, str(r.detail), r.result) for r in res]
+    return [(name, repr(shape) + (" (after a failed substitution)" if history else ""), r.kind, str(r.detail), r.result) for r in res]
 
 
 def _partition_job(job):
@@ -121,6 +133,21 @@ def run(ctx):
         jobs += [("nnf", sh), ("aig", sh), ("prenex", sh), ("shannon", sh), ("selfsub", sh)]
     for sh in bshapes[:40]:
         jobs.append(("prenex", sh))
+    # symbols spelled like the names alpha-renaming generates (same type): the renamed variable must still be fresh
+    fv0, fv1 = S("FV0"), S("FV1")
+    a_, b_ = S("a"), S("b")
+    qa_ = [("a", BOOL)]
+    for t in [("And", a_, ("exists", qa_, ("Not", ("Iff", a_, fv0)))), ("And", a_, ("exists", qa_, ("Not", ("Iff", a_, fv1)))),
+              ("Or", ("forall", qa_, ("Or", a_, fv0)), ("And", a_, fv1)), ("And", ("exists", qa_, ("And", a_, fv0)), ("exists", qa_, ("Iff", a_, fv1)), a_),
+              ("Implies", ("forall", qa_, ("Or", a_, b_)), ("And", a_, fv0, ("exists", [("b", BOOL)], ("Iff", b_, fv1))))]:
+        for nm in ("prenex", "nnf", "aig", "shannon", "selfsub"):
+            jobs.append((nm, Shape(t)))
+    # quantifier elimination after a failed substitution over a shared sub-term
+    y_, z_, q_ = S("y"), S("z"), S("q")
+    for t in [("forall", [("y", BOOL)], ("And", ("Or", y_, z_), q_)), ("exists", [("y", BOOL)], ("And", ("Or", y_, z_), q_)),
+              ("And", ("Or", y_, z_), ("forall", [("y", BOOL)], ("Implies", ("Or", y_, z_), q_)))]:
+        for nm in ("shannon", "selfsub", "prenex", "nnf"):
+            jobs.append((nm, Shape(t), "after a failed substitution"))
     # wide n-ary nodes (every arity up to 12, operands of both polarities), alone and under a quantifier
     vs = [S("v%d" % i) for i in range(12)]
     for k in range(3, 13):
